@@ -259,7 +259,7 @@ prop("C13", "exploration",
      required_hist=["key-exchange:plaintext", "key-exchange:encrypted-reinit", "authenticated:inner-ok", "authenticated:inner-error", "unauthenticated:plaintext-call", "unauthenticated:envelope-under-superseded-key", "unauthenticated:bit-flipped-body", "unauthenticated:batch-array", "unauthenticated:batch-array-with-key-exchange"])
 
 prop("C14", "exploration",
-     "a wallet opened with a keychain mask; 30 api::Owner methods (each with arguments valid for the current state: own initiated / locked slates, a "
+     "wallets opened with a keychain mask through api::Owner::open_wallet (their tokens must differ); 30 api::Owner methods (each with arguments valid for the current state: own initiated / locked slates, a "
      "counterparty reply, an incoming invoice, a slatepack encrypted to the wallet, an exported payment proof, a freshly mined block so that refreshing "
      "calls have something to write) are invoked with an absent, a random, a one-bit-off and another masked wallet's token, then with the right token. "
      "Oracle: any wrong token leaves the complete LMDB dump and files unchanged; methods that cannot work without the master key must answer with the "
@@ -271,7 +271,7 @@ prop("C14", "exploration",
      {"quick": 2000, "thorough": 20000},
      ["methods that only check the token for API consistency (accounts, post_tx, get_stored_tx, set_active_account) and pure readers are only required to leave the store unchanged",
       "start_updater's own return value is a don't-care (the refresh it attempts fails inside the thread)"],
-     required_hist=["wrong-token:invalid-mask", "right-token:wrote-state", "differential:equal-throughout", "closed-wallet:refused", "reopened:works-with-new-token"])
+     required_hist=["wrong-token:invalid-mask", "right-token:wrote-state", "differential:equal-throughout", "closed-wallet:refused", "reopened:works-with-new-token", "tokens-of-two-wallets-differ"])
 
 prop("C16", "exploration",
      "chain histories produced by the history engine (2 wallets x 2 accounts, sends, invoices, late locks, self-sends, cancels before broadcast, coinbases to "
@@ -299,8 +299,10 @@ prop("C18", "exploration",
      "full-look kind); non-trivial = all",
      [{"name": "c18", "cmd": "c18", "shards": {"quick": 14, "thorough": 16}, "crash_is_violation": True}],
      {"quick": 120, "thorough": 1500},
-     ["forks are longer than the branch they replace (the wallet ignores a node whose height is below its confirmed height)"],
-     required_hist=["judged-reverted:scan", "judged-reverted:full-refresh", "judged-confirmed:refresh"])
+     ["forks are longer than the branch they replace (the wallet ignores a node whose height is below its confirmed height)",
+      "in every other scenario the recipient wallet has a second account whose (coinbase) log entries carry the same per-account ids as the payment",
+      "orphaned coinbase rewards are judged for the active account (the one a refresh looks at)"],
+     required_hist=["judged-reverted:scan", "judged-reverted:full-refresh", "judged-confirmed:refresh", "recipient-has-a-second-account-with-colliding-log-ids"])
 
 prop("C20", "exploration",
      "schedules at wallet-lock granularity, enumerated: hook H2 announces every wallet_lock! acquisition of update_wallet_state / scan / scan with "
@@ -311,7 +313,7 @@ prop("C20", "exploration",
      "records (outputs with status, value and the content of their entry; entries as a multiset with type, confirmation, amounts, fee, TTL, kernel excess by "
      "value for pre-made slates, proof signatures present, stored tx; child indices per account) together with which operations took effect must equal the "
      "outcome of one of the serial orders run on the same snapshot. The operation set includes Look (a caller's retrieve_summary_info(refresh=true), i.e. a complete nested refresh on another thread). distinct = (start state, operations, positions, outcome); non-trivial = all",
-     [{"name": "c20", "cmd": "c20", "shards": {"quick": 16, "thorough": 16}, "crash_is_violation": True},
+     [{"name": "c20", "cmd": "c20", "shards": {"quick": 16, "thorough": 16}, "crash_is_violation": True, "timeout": {"quick": 1500, "thorough": 5400}},
       {"name": "c20t", "cmd": "c20t", "shards": {"quick": 8, "thorough": 16}, "tag": "threads", "crash_is_violation": True, "timeout": {"quick": 1200, "thorough": 3000}},
       {"name": "c20t-tsan", "cmd": "c20t", "shards": 4, "tiers": ["thorough"], "run_tier": "quick", "build": "tsan", "tag": "tsan", "timeout": {"thorough": 3000}}],
      {"quick": 2000, "thorough": 15000},
